@@ -102,7 +102,8 @@ pub fn rel(outer: &[u8], sub: &[u8]) -> Result<(usize, usize), String> {
         if s >= o && s <= o + outer.len() {
             return Ok((s - o, 0));
         }
-        return Err(format!("empty sub-slice at {:+} relative to an input of {} bytes", s as i128 - o as i128, outer.len()));
+        // an empty slice touches no memory; `&[]` constants (PayloadSlice::Empty) legitimately live elsewhere
+        return Ok((0, 0));
     }
     if s < o || s + sub.len() > o + outer.len() {
         return Err(format!(
